@@ -230,7 +230,14 @@ pub fn run(report: &Report, thorough: bool) -> Evidence {
                     continue;
                 }
               for edit2 in &second {
+               for with_mid in [false, true] {
+                if with_mid && !(edit2.is_none() && *edit != Edit::None && befores[bi].len() <= 1 && c1.is_phonetic() && c2.is_phonetic()) {
+                    continue;
+                }
                 for cont in &conts {
+                    if with_mid && cont.len() > 1 {
+                        continue;
+                    }
                     // fresh directory state
                     crate::drv::clear_user_files(&c1);
                     if let Some(d) = initials[ii] {
@@ -264,6 +271,18 @@ pub fn run(report: &Report, thorough: bool) -> Evidence {
                         }
                     }
                     let up = Ev::Update(Box::new(c2.clone()));
+                    // an intermediate update-engine with the suggestion list flipped (file already edited): the re-load must not
+                    // be lost between two updates. For short histories and one continuation per edit, phonetic -> phonetic.
+                    if with_mid {
+                        let mut cm = c2.clone();
+                        cm.psugg = !cm.psugg;
+                        let upm = Ev::Update(Box::new(cm));
+                        evs.push(upm.clone());
+                        if let Err(f) = live.apply(&upm) {
+                            fail(&f, &evs);
+                            continue;
+                        }
+                    }
                     evs.push(up.clone());
                     if let Err(f) = live.apply(&up) {
                         fail(&f, &evs);
@@ -366,6 +385,7 @@ pub fn run(report: &Report, thorough: bool) -> Evidence {
                         }
                     }
                 }
+               }
               }
             }
         },
